@@ -8,11 +8,11 @@ CONSTANTS
   ReadingNames <- cReadings
   Ops <- cOpsRat
   Consts <- cConsts
-  MinGrow = 2
+  MinGrow = 3
   MaxGrow = 5
-  NPoints = 2
+  NPoints = 3
   Vals <- cValsInt
-  Dts <- cDts
+  Dts <- cDts2
   CalVals <- cCalVals
   PNoiseVals <- cPNoise
   SNoiseVals <- cSNoise
@@ -21,10 +21,11 @@ CONSTANTS
   PVec <- cPVec
   ZDeltas <- cZDeltas
   Acts <- cActsPredict
-  MinSteps = 3
-  MaxSteps = 5
+  MinSteps = 6
+  MaxSteps = 9
   RationalOnly = TRUE
   Twins = FALSE
+  Chain = FALSE
   NeedDt = FALSE
   BindLeaves = TRUE
   EmitOn = TRUE
